@@ -1,11 +1,13 @@
 // Command stmt drives the REAL framework.Statement of a REAL framework.Session (C13, C14).
 //
 //	stmt -cfg scenario.json -in programs.ndjson -out trace.ndjson     replay TLC-exported programs
-//	stmt -random N -seed S -out trace.ndjson [-len L]                 seeded random well-formed programs
+//	stmt -random N -seed S -out trace.ndjson [-len L] [-draworlds K]  seeded random well-formed programs
 //
 // A scenario (nodes, queues, workloads, pods, GPU group ids; the record cfg of spec/Stmt.tla) is
 // materialised as Node/Pod/PodGroup/Queue objects in fake clientsets; the real SchedulerCache takes
-// the real snapshot, the real plugins (proportion ...) are registered by the real OpenSession, only
+// the real snapshot, the real plugins (proportion, dynamicresources ...) are registered by the real OpenSession;
+// scenarios with DRA devices / resource claims (see dra.go) additionally get DeviceClass / ResourceSlice /
+// ResourceClaim objects and a discovery answer from which the scheduler cache enables DynamicResourceAllocation; only
 // Session.Cache is wrapped by a recorder that can fail the k-th call. Every program runs on a fresh
 // session of that world. The trace (ndjson) is validated by spec/StmtTrace.tla.
 package main
@@ -48,6 +50,7 @@ func main() {
 	seed := flag.Int64("seed", 1, "seed")
 	plen := flag.Int("len", 60, "length of random programs (operations)")
 	nworlds := flag.Int("worlds", 8, "number of random scenarios (random mode)")
+	ndra := flag.Int("draworlds", 2, "number of additional random scenarios whose GPUs are DRA devices and whose pods have resource claims (random mode)")
 	flag.Parse()
 	if *out == "" {
 		die("-out required")
@@ -57,9 +60,9 @@ func main() {
 	if err != nil {
 		die("%v", err)
 	}
-	nprog := 0
+	nprog, rebuilt := 0, 0
 	if *nrandom > 0 {
-		nprog = runRandom(config, tw, *nrandom, *seed, *plen, *nworlds)
+		nprog, rebuilt = runRandom(config, tw, *nrandom, *seed, *plen, *nworlds, *ndra)
 	} else {
 		var cfg Cfg
 		b, err := os.ReadFile(*cfgPath)
@@ -93,10 +96,11 @@ func main() {
 			}
 			nprog++
 		}
-		w.Close()
+		r.Close()
+		rebuilt = r.rebuilt
 	}
 	if err := tw.Close(); err != nil {
 		die("%v", err)
 	}
-	fmt.Printf("programs=%d events=%d\n", nprog, tw.Count())
+	fmt.Printf("programs=%d events=%d worlds_rebuilt=%d\n", nprog, tw.Count(), rebuilt)
 }
